@@ -28,16 +28,16 @@ Definition detect_flags (c : column) (k : constr) : option (list flag) :=
     if negb (coarse_eqb (col_coarse c) (coarse_of (b_value b))) then Some (all_false c)
     else Some (per_cell (sat_max b) c)
   | CMinLen (Some n) =>
-    if ctype_eqb (c_type c) TString then Some (per_cell (fun v => Z.leb n (str_len v)) c) else None
+    if ctype_eqb (c_type c) TString then Some (per_cell (fun v => Z.leb n (str_len v)) c) else Some (all_false c)
   | CMaxLen (Some n) =>
-    if ctype_eqb (c_type c) TString then Some (per_cell (fun v => Z.leb (str_len v) n) c) else None
+    if ctype_eqb (c_type c) TString then Some (per_cell (fun v => Z.leb (str_len v) n) c) else Some (all_false c)
   | CSign (Some s) =>
     match col_coarse c with
     | KNumber => match s with
                  | SNull => Some (map (fun o => match o with None => Some true | Some _ => Some false end) (c_cells c))
                  | _ => Some (per_cell (sat_sign s) c)
                  end
-    | _ => None              (* the code computes "False" but never stores it *)
+    | _ => Some (all_false c)   (* not a numeric field: every record is flagged *)
     end
   | CMaxNulls (Some _) => Some (map (fun o => match o with None => Some false | Some _ => Some true end) (c_cells c))
   | CNoDup (Some true) =>
@@ -61,7 +61,7 @@ Fixpoint lookup_ok (v : value) (keys : list value) (oks : list bool) : bool :=
 Definition detect_rex_flags (c : column) (oks : list bool) : option (list flag) :=
   if ctype_eqb (c_type c) TString
   then Some (per_cell (fun v => lookup_ok v (first_occurrences (non_nulls c)) oks) c)
-  else None.      (* the verifier returns before the detector is reached *)
+  else Some (all_false c).      (* not a string field: every record is flagged *)
 
 Definition flags_of (p : params) (c : column) (k : constr) : option (list flag) :=
   if verify p (Some c) k then None
